@@ -212,13 +212,20 @@ func c20Expect(c cfgCase) (want c20Result) {
 		}
 	}
 	want.Local.MockDomainList = append(names, str("ServerName"))
-	want.Local.LocalAddr = str("LocalHost") + ":" + str("LocalPort")
+	// host:port, an IPv6 literal (anything containing a colon: also zone-scoped and IPv4-mapped forms) in brackets
+	hostPort := func(h, p string) string {
+		if strings.Contains(h, ":") {
+			return "[" + h + "]:" + p
+		}
+		return h + ":" + p
+	}
+	want.Local.LocalAddr = hostPort(str("LocalHost"), str("LocalPort"))
 	if st := num("StreamTimeout"); st == 0 {
 		want.Local.Timeout = 300 * time.Second
 	} else {
 		want.Local.Timeout = time.Duration(st) * time.Second
 	}
-	want.Rem.RemoteAddr = str("RemoteHost") + ":" + str("RemotePort")
+	want.Rem.RemoteAddr = hostPort(str("RemoteHost"), str("RemotePort"))
 	if n := num("NumConn"); n <= 0 {
 		want.Rem.NumConn, want.Rem.Singleplex = 1, true
 	} else {
@@ -238,7 +245,7 @@ func c20Expect(c cfgCase) (want c20Result) {
 		if path == "" {
 			path = "/"
 		}
-		want.Rem.Transport = TransportConfig{mode: "cdn", wsUrl: "ws://" + host + ":" + str("RemotePort") + path}
+		want.Rem.Transport = TransportConfig{mode: "cdn", wsUrl: "ws://" + hostPort(host, str("RemotePort")) + path}
 	} else {
 		b := browser(chrome)
 		switch strings.ToLower(str("BrowserSig")) {
@@ -352,6 +359,8 @@ func init() {
 				"CDNOriginHost":    {"origin.example.org", ""},
 				"CDNWsUrlPath":     {"/ws", "/", "/a/b", ""},
 				"ServerName":       {"www.bing.com", "random", "a.b.c.d.example"},
+				"RemoteHost":       {"203.0.113.5", "example.net", "::1", "2001:db8::1", "fe80::1%eth0", "::ffff:192.0.2.7"},
+				"LocalHost":        {"127.0.0.1", "::1", "fe80::1%lo", "::ffff:127.0.0.1"},
 				"ProxyMethod":      {"shadowsocks", "openvpn", "x"},
 				"PublicKey":        {make([]byte, 32), make([]byte, 31), make([]byte, 33)},
 				"UID":              {[]byte{1, 2, 3, 4, 5, 6, 7, 8, 9, 10, 11, 12, 13, 14, 15, 16}, []byte{0xff, 0xfe, 0xfd, 0xfc, 0xfb, 0xfa, 0xf9, 0xf8, 0xf7, 0xf6, 0xf5, 0xf4, 0xf3, 0xf2, 0xf1, 0xf0}},
